@@ -11,6 +11,8 @@ COMP = "robotools/liquidhandling/composition.py"
 UT = "robotools/utils.py"
 
 MUTANTS = [
+    dict(id="fluent-dst-composition", expect=["C16", "C01"], edits=[(FLW, "                                compositions=[source.get_well_composition(s)],", "                                compositions=[destination.get_well_composition(d)],")]),
+    dict(id="fluent-noop-rewrite", expect=[], silent=["C16"], edits=[(FLW, "                            nsteps += 1", "                            nsteps = nsteps + 1")]),
     dict(id="condense-plus-one", expect=["C11"], edits=[(EVW, "            source.condense_log(nsteps, label=label)", "            source.condense_log(nsteps + 1, label=label)")]),
     dict(id="volumes-live-array", expect=["C11"], edits=[(LW, "        return self._volumes.copy()", "        return self._volumes")]),
     dict(id="fluent-exec-zero-steps", expect=["C11"], edits=[(FLW, "                        if v > 0:", "                        if v >= 0:")]),
